@@ -148,7 +148,9 @@ def St.call (s : St) (op : String) (h : Host) : St :=
 def showTable (tab : List (Nat × List Host)) : String :=
   if tab.isEmpty then "empty" else " ".intercalate (tab.map (fun e => toString e.1 ++ ":" ++ showIds e.2))
 
-def parseRk (ks tok : String) : Option (Nat × Nat) := if tok == "-" || ks == "-" then none else some (nat ks, nat tok)
+/-- `ks = nil` (Pick(nil)) and `ks = err` (GetRoutingKey fails) are queries without a usable routing key -/
+def parseRk (ks tok : String) : Option (Nat × Nat) :=
+  if tok == "-" || ks == "-" || ks == "nil" || ks == "err" then none else some (nat ks, nat tok)
 def parsePerms (perms : String) : List (List Nat) := if perms == "-" then [] else (perms.splitOn ";").map natList
 
 /-- `key=ids` → ids -/
@@ -193,6 +195,8 @@ def St.burst (s : St) (calls : List String) : St × String :=
   host <id> <addr> <dc> <rack> <tokens|->          define a HostInfo object (state UP)
   hostp <id> <hostid> <addr> <port> <dc> <rack> <tokens|->   the same with an explicit host id and native port
   add|remove|hup|hdown <id>                        AddHost / RemoveHost / HostUp / HostDown → snapshot of the lists
+  setpart                                          SetPartitioner(OrderedPartitioner) after reset (late partitioner)
+  islocal <id>                                     IsLocal(host) [HostTier/MaxHostTier for a HostTierer]
   addhosts <id,id,...>                             AddHosts([...]) (token-aware policy; AddHost per host otherwise: Session.init)
   state <id> <1|0>                                 setState(NodeUp|NodeDown); ends the life of all iterators
   repl <ks> <tok>:<ids> ...                        install the replica table of a keyspace (hook)
@@ -226,6 +230,15 @@ def step (s : St) (ws : List String) : St × String :=
   | ["ksmeta", ks, v] =>
     let m : Option (Option Nat) := if v == "none" then none else if v == "local" then some none else some (some (nat v))
     (bump { s with t := s.t.setMeta (nat ks) m }, "ok")
+  | ["setpart"] =>
+    (bump { s with t := if s.isTA then s.t.setPartitioner else s.t, inj := if s.isTA && !s.t.partSet then [] else s.inj }, "ok")
+  | ["islocal", id] =>
+    match s.host? (nat id) with
+    | none => (s, "bad-op")
+    | some h =>
+      let p := s.t.pol
+      (s, (if p.tier h == 0 then "1" else "0") ++
+        (if p.kind == .rack then " " ++ toString (p.tier h) ++ "/" ++ toString p.maxTier else ""))
   | ["addhosts", idl] =>
     let hs := (natList idl).filterMap s.host?
     if s.alias || hs.isEmpty || hs.length != (natList idl).length then (s, "bad-op") else
